@@ -140,7 +140,7 @@ Owns(P, x, g) ==
                       \/ (x.authed /\ v \in ({"JOIN", "PART", "KICK", "NICK", "KILL"} \cup Endings) /\
                             (Membership(g) \/ (IsOut(g) /\ g.a = "r" /\ g.b \in {"JOIN", "PART", "KICK", "NICK"})
                              \/ (IsOut(g) /\ g.b \in {"353", "366"})))
-                      \/ (x.authed /\ ~x.perr /\ v \in {"NAMES", "WHO", "WHOIS"} /\ IsOut(g) /\
+                      \/ (x.authed /\ ~x.perr /\ ~x.hidden /\ v \in {"NAMES", "WHO", "WHOIS"} /\ IsOut(g) /\
                             g.b \in {"353", "366", "352", "315", "319"} /\ g.d \in {"-s", "-o"})
       [] P = "C05" -> g.t = "run" /\ g.a \in {"dead", "panic", "issue"}
       [] P = "C06" -> ((x.authed /\ v \in Endings) \/ (x.authed /\ ~x.perr /\ v \in {"KILL", "DIE", "SQUIT"})) /\
